@@ -57,6 +57,11 @@ func (g *Gen) fill(v reflect.Value, depth int, name string) {
 		v.SetInt(x[g.r.Intn(len(x))])
 		return
 	case reflect.TypeOf(jwt.SamplingRate(0)):
+		if g.r.Chance(8) {
+			// out of range: Encode must refuse it, not write something else
+			v.SetInt([]int64{101, 122, 1 << 20, -1, -100}[g.r.Intn(5)])
+			return
+		}
 		v.SetInt(int64(g.r.Intn(101)))
 		return
 	case reflect.TypeOf(jwt.ScopeType(0)):
